@@ -102,6 +102,9 @@ def _model_case(case):
     rng = gen.rng_for(p["iseed"], "c06")
     S, T = p["S"], p["T"]
     shape = (S, S, S)
+    if gen.rng_for(p["iseed"], "c06-shape").random() < 0.35:
+        shape = (S, S + 4, S + 2)      # non-cubic box (never smaller than the cubic one: the particle keeps its size): candidates are rotated about the centre of the z,y,x box
+        case.count("noncubic_boxes")
     M = 2.0
     sp = species(rng, shape, T, margin=M + 4.6)
     tmpls = [gen.render_box(shape, b) for b in sp]
@@ -113,7 +116,8 @@ def _model_case(case):
     Model = model_class(p["model"])
     kw = {} if rot_arg is None else {"rotations": rot_arg}
     # masks that are not invariant under the searched rotations (each candidate carries its own rotated mask)
-    zz = np.indices(shape) - (S - 1) / 2
+    zz = np.indices(shape) - ((np.asarray(shape) - 1) / 2)[:, None, None, None]
+    S = min(shape)
     mk = p.get("mask", "none")
     if p["model"] == "PCC" and mk in ("halfspace", "box"):
         mk = "none"   # PCC scores are not normalised: a mask that cuts candidates differently changes their energy
@@ -195,7 +199,8 @@ def _model_case(case):
     from acryo.molecules import from_euler_xyz_coords
 
     for rg in (((0.3, 0.1), (0.0, 0.0), (1.2, 0.4)), ((20.0, 10.0), (15.0, 15.0), (0.0, 0.0)), (7.0, 3.5),
-               ((4.2, 1.4), (0, 0), (0.9, 0.3))):
+               ((4.2, 1.4), (0, 0), (0.9, 0.3)), (25.0, 10.0), ((25.0, 10.0), (0, 0), (8.0, 5.0)),
+               ((30.0, 15.0), (0, 0), (15.0, 15.0)), ((0, 0), (12.0, 5.0), (19.9, 10.0))):
         got = normalize_rotations(rg)
         per = rg if np.ndim(rg) == 2 else (rg,) * 3
         angs = [np.array([0.0]) if st == 0 else
